@@ -8,7 +8,8 @@
 (*                                        shot of case c starts; id is the *)
 (*                                        id of the ammo (0: it has none)  *)
 (*   Report{inst, tags, id, proto, net}   the reporting aggregator mock    *)
-(*   End{inst}                            the shot returned                *)
+(*   End{inst, steps}                     the shot returned (scenario: the *)
+(*                                        step labels the target saw)      *)
 (*   RunBegin{n, r} ... RunEnd{n, r, first}   ids mode: n instances made   *)
 (*                                        r acquisitions each on ONE       *)
 (*                                        provider; first = line number of *)
@@ -63,6 +64,9 @@ TOneSample == /\ AtEnd => CountOK(cur[Li], rep[Li])
 TProto == AtEnd => ProtoOK(cur[Li], rep[Li])
 TNet   == AtEnd => NetOK(cur[Li], rep[Li])
 TTag   == AtEnd => TagOK(cur[Li], rep[Li])
+\* scenario shots: the target saw requests of exactly the steps that were executed up to sending - none of a step
+\* after the failed one, none of a step whose preprocessor / template failed (End carries the labels seen)
+TSent  == (AtEnd /\ cur[Li].kind \in {"httpscn", "grpcscn"}) => Rng(Last.steps) = SentSteps(cur[Li])
 \* HTTP ammo attaches its id to its sample
 TSampleId == AtEnd => (cur[Li].kind \in {"http", "tag"} => \A k \in DOMAIN rep[Li] : rep[Li][k].id = myid[Li] /\ myid[Li] > 0)
 \* ids are injective within a run: the ids of all acquisitions between RunBegin and RunEnd are pairwise distinct
